@@ -108,7 +108,7 @@ inductive ColorArg where
 deriving Repr, BEq, DecidableEq
 
 /-- `_make_color` (style.py:116). -/
-def makeColor (v : Variant) : ColorArg → Except StyleErr Color
+def makeColor (v : StyleVariant) : ColorArg → Except StyleErr Color
   | .str s => Color.parse v s
   | .color c => .ok c
 
@@ -129,7 +129,7 @@ def kwVal (kw : Kwargs) : Nat :=
   bitsToNat ((List.range 13).map fun i => kw.getD i none == some true)
 
 /-- `Style.__init__` (style.py:93-171).  `color` is evaluated before `bgcolor`. -/
-def init (v : Variant) (color bgcolor : Option ColorArg) (kw : Kwargs) (link : Option (List Char)) :
+def init (v : StyleVariant) (color bgcolor : Option ColorArg) (kw : Kwargs) (link : Option (List Char)) :
     Except StyleErr Style :=
   match (match color with | none => Except.ok none | some c => (makeColor v c).map some) with
   | .error e => .error e
@@ -147,7 +147,7 @@ def init (v : Variant) (color bgcolor : Option ColorArg) (kw : Kwargs) (link : O
             styleDef := none }
 
 /-- `Style.from_color` (style.py:178-205). -/
-def fromColor (v : Variant) (color bgcolor : Option Color) : Style :=
+def fromColor (v : StyleVariant) (color bgcolor : Option Color) : Style :=
   { color := color, bgcolor := bgcolor, attributes := 0, setAttributes := 0, link := none,
     hash := if v.fromColorHash then ⟨color, bgcolor, none, none, none⟩
             else ⟨color, bgcolor, some 0, some 0, none⟩,
@@ -156,7 +156,7 @@ def fromColor (v : Variant) (color bgcolor : Option Color) : Style :=
 /-! ### `__add__`, `copy`, `update_link`, `without_color`, `chain` -/
 
 /-- `Style.__add__` (style.py:637-657) for a `Style` right operand. -/
-def add (v : Variant) (self style : Style) : Style :=
+def add (v : StyleVariant) (self style : Style) : Style :=
   if style.isNull then self
   else if self.isNull then style
   else
@@ -172,7 +172,7 @@ def add (v : Variant) (self style : Style) : Style :=
       isNull := self.isNull || style.isNull, styleDef := none }
 
 /-- `Style.__add__` with an `Optional[Style]` right operand (`style is None` returns `self`). -/
-def addOpt (v : Variant) (self : Style) : Option Style → Style
+def addOpt (v : StyleVariant) (self : Style) : Option Style → Style
   | none => self
   | some style => add v self style
 
@@ -182,7 +182,7 @@ def copy (s : Style) : Style :=
   else { s with isNull := false }
 
 /-- `Style.update_link` (style.py:577-597). -/
-def updateLink (v : Variant) (s : Style) (link : Option (List Char)) : Style :=
+def updateLink (v : StyleVariant) (s : Style) (link : Option (List Char)) : Style :=
   { color := s.color, bgcolor := s.bgcolor, attributes := s.attributes, setAttributes := s.setAttributes,
     link := link,
     hash := if v.updateLinkHash then s.hash
@@ -191,7 +191,7 @@ def updateLink (v : Variant) (s : Style) (link : Option (List Char)) : Style :=
     styleDef := if v.updateLinkDef then s.styleDef else none }
 
 /-- `Style.without_color` (style.py:386-402). -/
-def withoutColor (v : Variant) (s : Style) : Style :=
+def withoutColor (v : StyleVariant) (s : Style) : Style :=
   if s.isNull then Style.null
   else
     { color := none, bgcolor := none, attributes := s.attributes, setAttributes := s.setAttributes,
@@ -202,7 +202,7 @@ def withoutColor (v : Variant) (s : Style) : Style :=
 
 /-- `Style.chain(*styles)` / `Style.combine(styles)`: `sum(iter_styles, next(iter_styles))`
 (style.py:530-554) — a left fold of `__add__` starting from the first style. -/
-def chain (v : Variant) : List Style → Except StyleErr Style
+def chain (v : StyleVariant) : List Style → Except StyleErr Style
   | [] => .error .stopIteration
   | first :: rest => .ok (rest.foldl (add v) first)
 
@@ -271,7 +271,7 @@ structure ParseState where
 deriving Repr, BEq, DecidableEq
 
 /-- The loop of `Style.parse` (style.py:450-490); `next(words, "")` consumes the following word. -/
-def parseLoop (v : Variant) : List (List Char) → ParseState → Except StyleErr ParseState
+def parseLoop (v : StyleVariant) : List (List Char) → ParseState → Except StyleErr ParseState
   | [], st => .ok st
   | originalWord :: rest, st =>
     let word := lower originalWord
@@ -304,7 +304,7 @@ def parseLoop (v : Variant) : List (List Char) → ParseState → Except StyleEr
         | .ok _ => parseLoop v rest { st with color := some word }
 
 /-- `Style.parse(style_definition)` (style.py:404-492), without the (transparent) `lru_cache`. -/
-def parse (v : Variant) (styleDefinition : List Char) : Except StyleErr Style :=
+def parse (v : StyleVariant) (styleDefinition : List Char) : Except StyleErr Style :=
   if strip styleDefinition == cl! "none" || styleDefinition.isEmpty then .ok Style.null
   else
     match parseLoop v (split styleDefinition) {} with
@@ -312,7 +312,7 @@ def parse (v : Variant) (styleDefinition : List Char) : Except StyleErr Style :=
     | .ok st => init v (st.color.map .str) (st.bgcolor.map .str) st.attributes st.link
 
 /-- `Style.normalize(style)` (style.py:318-333): only `StyleSyntaxError` is caught. -/
-def normalize (v : Variant) (style : List Char) : Except StyleErr (List Char) :=
+def normalize (v : StyleVariant) (style : List Char) : Except StyleErr (List Char) :=
   match parse v style with
   | .ok s => .ok (str s)
   | .error .styleSyntax => .ok (lower (strip style))
@@ -329,7 +329,7 @@ its name but changes its type), attribute bits outside the 13 known ones. -/
 def noSpace (s : List Char) : Bool := s.all fun c => !isSpace c
 
 /-- The colour's name is white-space free and is a definition of this very colour. -/
-def wfColor (v : Variant) (c : Color) : Bool :=
+def wfColor (v : StyleVariant) (c : Color) : Bool :=
   noSpace c.name &&
     match Color.parse v c.name with
     | .ok c' => decide (c' = c)
@@ -340,7 +340,7 @@ def wfLink : Option (List Char) → Bool
   | none => true
   | some l => !l.isEmpty && noSpace l
 
-def wf (v : Variant) (s : Style) : Bool :=
+def wf (v : StyleVariant) (s : Style) : Bool :=
   decide (s.attributes &&& s.setAttributes = s.attributes) && decide (s.setAttributes < 8192) &&
     (match s.color with | none => true | some c => wfColor v c) &&
     (match s.bgcolor with | none => true | some c => wfColor v c) &&
